@@ -10,14 +10,18 @@ import PdfModel.Model.Lexer
                                               i.e. the bytes of the outer buffer from `base` on; `pos` here is the
                                               absolute index (`base + StringLexer.pos`); both run to the end of `buf`
   StringLexer::next_byte / peek_byte          `nextByte` / `peekByte`
-  StringLexer::next_lexeme                    `nextLexeme` (recursive through line continuations: fuel)
+  StringLexer::next_lexeme                    `nextLexeme` (the `loop` over line continuations: fuel)
   `for c in string_lexer.iter() { push(c?) }` `collectString`
   HexStringLexer::read_byte / back            `nextByte` / `hexBack`
   HexStringLexer::next_non_whitespace_char    `nextNonWs`
   HexStringLexer::next_hex_byte               `nextHexByte`
   `for b in hex_string_lexer.iter() { .. }`   `collectHex`
 
-  `nested` is an `i32`: `+= 1` beyond `i32::MAX` is an overflow panic (overflow checks on).
+  `nested` is an `i64` (after the `fix:` commit; it was an `i32`, see `nestedStepOld32` in `Lemmas/TotalStr`):
+  `+= 1` beyond `i64::MAX` is an overflow panic (overflow checks on) — unreachable, the counter grows by at most
+  one per byte read (`Lemmas/TotalStr.nextLexeme_spec`).
+  `next_lexeme` is a `loop` (after the `fix:` commit; it called itself once per line continuation): `fuel`
+  counts the iterations.
   `char_code` is a `u16` (at most 0o777 = 511, never overflows), `char_code as u8` truncates.
 -/
 
@@ -73,7 +77,7 @@ def nextLexeme (buf : Buf) : Nat → Nat → Int → Out (Option UInt8 × Nat ×
           .ok (some (UInt8.ofNat (code % 256)), pos, nested)
         else .ok (some c, pos, nested)
     else if c == 40 then
-      if nested + 1 > 2147483647 then .panic else .ok (some 40, pos, nested + 1)
+      if nested + 1 > 9223372036854775807 then .panic else .ok (some 40, pos, nested + 1)
     else if c == 41 then
       -- `nested -= 1` cannot underflow: `nested ≥ 0` here
       if nested - 1 < 0 then .ok (none, pos, nested - 1) else .ok (some 41, pos, nested - 1)
